@@ -237,6 +237,14 @@ hawk_arr_t* hawk_arr_setcapa (hawk_arr_t* arr, hawk_oow_t capa)
 
 	if (capa > 0)
 	{
+		if (capa > HAWK_TYPE_MAX(hawk_oow_t) / HAWK_SIZEOF(*arr->slot))
+		{
+			/* the size of the table in bytes doesn't fit in hawk_oow_t. the
+			 * wrapped-around size can be 0, for which realloc() frees the table */
+			hawk_gem_seterrnum (arr->gem, HAWK_NULL, HAWK_ENOMEM);
+			return HAWK_NULL;
+		}
+
 		tmp = (slot_t**)hawk_gem_reallocmem(arr->gem, arr->slot, HAWK_SIZEOF(*arr->slot) * capa);
 		if (HAWK_UNLIKELY(!tmp)) return HAWK_NULL;
 	}
@@ -303,6 +311,14 @@ hawk_oow_t hawk_arr_insert (hawk_arr_t* arr, hawk_oow_t pos, void* dptr, hawk_oo
 {
 	hawk_oow_t i;
 	slot_t* slot;
+
+	if (pos >= HAWK_TYPE_MAX(hawk_oow_t) / HAWK_SIZEOF(*arr->slot))
+	{
+		/* no table can hold this position. stop here as the capacity
+		 * calculation below would wrap around - the doubling loop would never end */
+		hawk_gem_seterrnum (arr->gem, HAWK_NULL, HAWK_EINVAL);
+		return HAWK_ARR_NIL;
+	}
 
 	/* allocate the slot first */
 	slot = alloc_slot(arr, dptr, dlen);
